@@ -276,6 +276,12 @@ def _agg_size(f, sz):
         if res and all(r[0] for r in res):
             return True, "aggregate size = join of const parameters each entailed <= N (%s)" % ", ".join(r[1] for r in res)
         return False, "aggregate size input not entailed <= N: %s" % ", ".join(r[1] for r in res if not r[0])
+    # any other value that the facts (incl. min(a, b) <= a, b) bound by the capacity
+    for b, i, st, is_term in f.positions(False):
+        if not is_term and st["k"] == "assign" and st["rv"]["k"] == "aggregate" and st["rv"].get("adt", "").endswith("::CircularBuffer"):
+            Z = guards.Guards(f).closure(b, extra_terms=[sz, ("cparam", "N")])
+            if Z.le(sz, ("cparam", "N"), 0):
+                return True, "aggregate size `%s` entailed <= N" % mir.fmt(sz, f)
     return False, "aggregate size `%s` of unreviewed shape" % mir.fmt(sz, f)
 
 
